@@ -196,6 +196,10 @@ where
     // nsec3_ttl is known.
     let mut nsec3param_ttl = None;
 
+    // The CLASS to use for the NSEC3 and NSEC3PARAM RRs: the class of the
+    // zone, taken from the apex SOA RRset like the TTLs.
+    let mut zone_class = None;
+
     // Skip any glue records that sort earlier than the zone apex.
     records.skip_before(apex_owner);
 
@@ -455,6 +459,8 @@ where
                     Nsec3ParamTtlMode::Soa => Some(soa_rr.ttl()),
                     Nsec3ParamTtlMode::SoaMinimum => Some(soa_data.minimum()),
                 };
+
+                zone_class = Some(rrset.class());
             }
         }
 
@@ -485,6 +491,7 @@ where
             apex_owner,
             bitmap,
             nsec3_ttl.unwrap(),
+            zone_class.unwrap(),
         )?;
 
         // Store the record by order of its owner name.
@@ -515,6 +522,7 @@ where
             apex_owner,
             bitmap,
             nsec3_ttl.unwrap(),
+            zone_class.unwrap(),
         )?;
 
         // Store the record by order of its owner name.
@@ -632,7 +640,8 @@ where
             .try_to_name::<Octs>()
             .map_err(|_| Nsec3HashError::AppendError)?
             .into(),
-        Class::IN,
+        // SAFETY: zone_class is set together with nsec3param_ttl.
+        zone_class.unwrap(),
         nsec3param_ttl,
         config.params.clone(),
     );
@@ -662,6 +671,7 @@ fn mk_nsec3<N, Octs>(
     apex_owner: &N,
     bitmap: RtypeBitmapBuilder<<Octs as FromBuilder>::Builder>,
     ttl: Ttl,
+    class: Class,
 ) -> Result<Record<N, Nsec3<Octs>>, Nsec3HashError>
 where
     N: ToName + From<Name<Octs>>,
@@ -695,7 +705,7 @@ where
         bitmap.finalize(),
     );
 
-    Ok(Record::new(owner_name, Class::IN, ttl, nsec3))
+    Ok(Record::new(owner_name, class, ttl, nsec3))
 }
 
 pub fn mk_hashed_nsec3_owner_name<N, Octs, SaltOcts>(
